@@ -223,6 +223,46 @@ impl Strategy for Solo {
     }
 }
 
+/// Victim + atomic helpers: the victim runs; when it is about to take its own step number k
+/// (for a point (k, u)), thread u runs to completion first. Setup threads (ids below `first`)
+/// run before anything else.
+pub struct Pb {
+    victim: usize,
+    points: Vec<(usize, usize)>,
+    vsteps: usize,
+    running: Option<usize>,
+}
+
+impl Strategy for Pb {
+    fn pick(&mut self, pt: &Point) -> usize {
+        // a helper that was switched to keeps running while it can
+        if let Some(u) = self.running {
+            if pt.runnable.contains(&u) {
+                return u;
+            }
+            self.running = None;
+        }
+        if pt.runnable.contains(&self.victim) {
+            // is a helper due before the victim's next own step?
+            if let Some(pos) = self.points.iter().position(|(k, u)| *k == self.vsteps && pt.runnable.contains(u)) {
+                let (_, u) = self.points.remove(pos);
+                self.running = Some(u);
+                return u;
+            }
+            self.vsteps += 1;
+            return self.victim;
+        }
+        // victim blocked (waiting) or finished: lowest runnable thread that is not a pending helper
+        let pending: Vec<usize> = self.points.iter().map(|p| p.1).collect();
+        for t in pt.runnable {
+            if !pending.contains(t) {
+                return *t;
+            }
+        }
+        pt.runnable[0]
+    }
+}
+
 fn parse_seq(v: &Value) -> Vec<(usize, bool)> {
     v.as_array()
         .map(|a| {
@@ -274,6 +314,15 @@ pub fn from_json(v: &Value, nthreads: usize) -> Box<dyn Strategy> {
             k: v["k"].as_u64().unwrap_or(1) as usize,
             target: None,
             others_done_at_start: 0,
+        }),
+        "pb" => Box::new(Pb {
+            victim: v["victim"].as_u64().unwrap_or(1) as usize,
+            points: v["points"]
+                .as_array()
+                .map(|a| a.iter().map(|p| (p[0].as_u64().unwrap() as usize, p[1].as_u64().unwrap() as usize)).collect())
+                .unwrap_or_default(),
+            vsteps: 0,
+            running: None,
         }),
         "solo" => Box::new(Solo {
             base: from_json(&v["base"], nthreads),
